@@ -17,6 +17,8 @@ Ops1(L, R) ==
   \cup {Neg(e) : e \in L} \cup {Not(e) : e \in L}
   \cup {CastT(e, "int") : e \in L} \cup {IdxT(e, i) : e \in L, i \in R}
   \cup {InT(ng, e, <<v>>) : ng \in BOOLEAN, e \in L, v \in R} \cup {InT(FALSE, e, <<v, One>>) : e \in L, v \in R}
+  \cup {InT(ng, e, <<One, v>>) : ng \in BOOLEAN, e \in L, v \in R} \cup {InT(FALSE, e, <<One, v, v>>) : e \in L, v \in R}       \* every element of a list is an expression, not only the first
+  \cup {CallT("least", <<r, e>>) : e \in L, r \in R} \cup {CaseT(One, e, r) : e \in L, r \in R}
   \cup {CallT("abs", <<e>>) : e \in L} \cup {CallT("least", <<e, r>>) : e \in L, r \in R}
   \cup {CaseT(e, r, One) : e \in L, r \in R}
 
